@@ -144,7 +144,7 @@ pub fn eval_entry(e: &Entry, f: usize, s: &str) -> Outcome {
 // ---------------------------------------------------------------------------------------------
 // requests and their faults
 
-pub const FAULT_NAMES: [&str; 28] = [
+pub const FAULT_NAMES: [&str; 29] = [
     "truncate",
     "replace_char",
     "delete_char",
@@ -173,6 +173,7 @@ pub const FAULT_NAMES: [&str; 28] = [
     "deep_nesting",
     "empty_container",
     "long_input",
+    "invisible_prefix_or_suffix",
 ];
 
 #[derive(Clone, Debug)]
@@ -288,7 +289,7 @@ fn gen_request(ch: &mut Choices, gp: &GenParams, fault_rate: u32, f: usize) -> R
     let a_punct = || it.punct.clone().unwrap_or_else(|| fmt.sentence.punctuation_judgement.to_string());
     let a_stamp = || it.stamp.clone().filter(|s| !s.is_empty()).unwrap_or_else(|| fmt.format_stamp(&Stamp::Present));
     // item-level and character-level faults; index 0 (truncate) is the "simplest"
-    let which = ch.weighted(&[14, 8, 6, 8, 9, 7, 5, 5, 5, 4, 4, 7, 5, 4, 3, 3, 1, 1, 3, 3, 2, 3, 6, 5, 5, 3, 4, 2]);
+    let which = ch.weighted(&[14, 8, 6, 8, 9, 7, 5, 5, 5, 4, 4, 7, 5, 4, 3, 3, 1, 1, 3, 3, 2, 3, 6, 5, 5, 3, 4, 2, 4]);
     faults.push(which);
     let text = match which {
         0 => {
@@ -420,6 +421,16 @@ fn gen_request(ch: &mut Choices, gp: &GenParams, fault_rate: u32, f: usize) -> R
                 format!("{head}{prefix}")
             }
         }
+        28 => {
+            // characters an editor or a file format leaves behind and nobody sees: byte order
+            // mark, zero-width space, no-break space, ideographic space, tab, line ends
+            let inv = ['\u{feff}', '\u{200b}', '\u{a0}', '\u{3000}', '\t', '\n', '\r'][ch.choose(7) as usize];
+            match ch.choose(3) {
+                0 => format!("{inv}{full}"),
+                1 => format!("{full}{inv}"),
+                _ => format!("{inv}{full}{inv}"),
+            }
+        }
         27 => {
             // an input hundreds or thousands of characters long (a compound with 100-400
             // components), complete or left partial in one of the usual ways
@@ -492,7 +503,7 @@ enum Op {
 
 #[derive(Default, Clone)]
 pub struct SessionsRunStats {
-    pub faults: [u64; 28],
+    pub faults: [u64; 29],
     pub requests: u64,
     pub requests_faulty: u64,
     pub ops: u64,
@@ -511,6 +522,7 @@ pub struct SessionsRunStats {
     pub long_sessions: u64,
     pub soak_runs: u64,
     pub other_calls: u64,
+    pub space_variants: u64,
     pub calls_temp_format: u64,
     pub coop_runs: u64,
     pub coop_threads: u64,
@@ -916,8 +928,9 @@ pub fn run_sessions(ch: &mut Choices, verbose: bool) -> SessionsReport {
         stop_den: 3,
         cjk_names: false,
         many_names: false,
+        domain_names: false,
     };
-    let gp = GenParams { cjk_names: ch.chance(1, 3), ..gp };
+    let gp = GenParams { cjk_names: ch.chance(1, 3), domain_names: ch.chance(1, 4), ..gp };
     let main_format = ch.choose(3) as usize;
     // "soak" runs: one client hammering ONE stateless entry point a few hundred times with mostly
     // faulty requests, re-asking a few valid probes all along (state that accumulates slowly)
@@ -932,10 +945,34 @@ pub fn run_sessions(ch: &mut Choices, verbose: bool) -> SessionsReport {
     stats.clients = n_clients as u64;
     let mut reqs: Vec<Req> = Vec::with_capacity(n_reqs + 8);
     let mut same_len = 0u64;
+    let mut space_variants = 0u64;
     let generated = guarded(|| {
         let mut reqs: Vec<Req> = vec![];
         for _ in 0..n_reqs {
             let f = if mixed_formats { ch.choose(3) as usize } else { main_format };
+            // sequence-level fault: the previous request with one blank more or one blank less
+            // (blanks separate components in this grammar: `{tom cat}` is not `{tomcat}`)
+            if !reqs.is_empty() && ch.chance(1, 12) {
+                let prev: &Req = &reqs[reqs.len() - 1];
+                let mut chars: Vec<char> = prev.text.chars().collect();
+                let blanks: Vec<usize> = (0..chars.len()).filter(|i| chars[*i] == ' ').collect();
+                let letters: Vec<usize> = (1..chars.len()).filter(|i| chars[*i].is_alphanumeric() && chars[*i - 1].is_alphanumeric()).collect();
+                let done = if !blanks.is_empty() && ch.chance(1, 2) {
+                    chars.remove(blanks[ch.choose(blanks.len() as u32) as usize]);
+                    true
+                } else if !letters.is_empty() {
+                    chars.insert(letters[ch.choose(letters.len() as u32) as usize], ' ');
+                    true
+                } else {
+                    false
+                };
+                if done {
+                    space_variants += 1;
+                    let r = Req { text: chars.into_iter().collect(), f: prev.f, faults: prev.faults.clone() };
+                    reqs.push(r);
+                    continue;
+                }
+            }
             // sequence-level fault: a same-length variant of the previous request
             if !reqs.is_empty() && ch.chance(1, 10) {
                 let prev: &Req = &reqs[reqs.len() - 1];
@@ -962,6 +999,7 @@ pub fn run_sessions(ch: &mut Choices, verbose: bool) -> SessionsReport {
         return SessionsReport { violations: vec![], log, stats };
     }
     stats.same_len_variants = same_len;
+    stats.space_variants = space_variants;
     for (i, r) in reqs.iter().enumerate() {
         stats.requests += 1;
         if !r.faults.is_empty() {
@@ -1130,7 +1168,7 @@ fn run_concurrent_callers(ch: &mut Choices, verbose: bool) -> SessionsReport {
     let fault_rate = [0u32, 25, 50][ch.weighted(&[30, 40, 30])];
     let switch_den = [1u64, 2, 4, 16][ch.weighted(&[20, 30, 30, 20])];
     let sched_seed = ch.bits() as u64;
-    let gp = GenParams { max_depth: ch.range(1, 3), max_fan: ch.range(1, 3), n_names: ch.range(2, 5), unordered_bias: ch.choose(3), exotic: false, stop_den: 3, cjk_names: ch.chance(1, 3), many_names: false };
+    let gp = GenParams { max_depth: ch.range(1, 3), max_fan: ch.range(1, 3), n_names: ch.range(2, 5), unordered_bias: ch.choose(3), exotic: false, stop_den: 3, cjk_names: ch.chance(1, 3), many_names: false, domain_names: false };
     let main_format = ch.choose(3) as usize;
     let mixed = ch.chance(1, 2);
     let n_reqs = ch.range(3, 10) as usize;
